@@ -512,8 +512,153 @@ def render_adversarial(items, rng, intensity=4, comment_share=2):
     return "".join(out)
 
 
+# ------------------------------------------------------------------ block comments of arbitrary shape
+# The formatter rewrites the INTERIOR of a multi-line block comment (printer.emitBlockComment: common
+# indent stripped and re-added by dom.Indent in the Default preset, prefix / plain normalisation in
+# the Legacy preset), so the shape of the comment is an input dimension of its own: indentation of
+# every line (spaces, tabs, mixed; deeper or shallower than its neighbours), empty and
+# whitespace-only lines of any width, `*` / other prefix characters or none, text on the opening and
+# on the closing line, trailing white space, LF / CRLF.
+BC_WS = ["", " ", "  ", "   ", "    ", "      ", "        ", "\t", "\t\t", " \t", "  \t ", "\t  ", "   \t", "         "]
+BC_FIRST = ["/*", "/*", "/**", "/* text", "/*text", "/* ", "/*\t", "/** doc", "/*=", "/*\t\ttext"]
+BC_STAR = ["* text", "*", "* more", "*\ttab", "** x", "*text", "*  deeper"]
+BC_TEXT = ["text", "more text here", "1. item", "x", "text\twith tab"]
+BC_BODY = BC_STAR + BC_TEXT + ["= text", "- item", "# h", "=", "+-+", "| cell |", "\\ x", "@tag v"]
+BC_CLOSE = ["*/", "*/", "*/", "text */", "**/", "* text */", "= */", "x*/"]
+
+
+def gen_block_comment(rng, eol="\n"):
+    """One block comment, multi-line in all but 1 of 12 draws.  No shape is privileged: every line
+    draws its own indentation (the common one, the common one plus something, or anything), one line
+    in four is empty or consists of white space only - of any width, so it may be shallower or deeper
+    than every other line - and the closing line may carry text."""
+    if rng.chance(1, 12):
+        return rng.choice(["/* c */", "/**/", "/*\tc\t*/", "/** d */", "/* a * b */", "/*c*/"])
+    style = rng.below(4)       # 0 every line starts with `*`, 1 plain text, 2/3 anything
+    base = rng.choice(BC_WS)
+
+    def indent():
+        k = rng.below(5)
+        if k < 2:
+            return base
+        if k == 2:
+            return base + rng.choice([" ", "  ", "\t", "    "])
+        if k == 3 and base:
+            return base[:rng.below(len(base))]
+        return rng.choice(BC_WS)
+
+    def body():
+        if style == 0:
+            return rng.choice(BC_STAR)
+        if style == 1:
+            return rng.choice(BC_TEXT)
+        return rng.choice(BC_BODY)
+    lines = [rng.choice(BC_FIRST)]
+    for _ in range(rng.range(0, 5)):
+        k = rng.below(8)
+        if k == 0:
+            lines.append("")
+        elif k == 1:
+            lines.append(rng.choice(BC_WS))
+        else:
+            lines.append(indent() + body() + (rng.choice([" ", "\t", "  "]) if rng.chance(1, 6) else ""))
+    close = rng.choice(BC_CLOSE)
+    if style == 0 and rng.chance(1, 2):
+        close = "*/"
+    lines.append(indent() + close)
+    return eol.join(lines)
+
+
+def render_blockcomments(items, rng, share=4):
+    """The plain layout (render_plain) with block comments of arbitrary shape in every position a
+    comment can take relative to the declarations: first in the file, on its own lines before a
+    declaration (top level, in a body, in a nested body; at the declaration's indentation or not;
+    attached, or detached by a blank line before / after), trailing a complete declaration on its
+    line, after an opening brace, last in a body before the closing brace, on the line of the next
+    declaration, last in the file (with or without a final line break), and - rarely - between two
+    tokens of a declaration.  Line ends are LF, or CRLF in one file of eight (the comment may
+    disagree with the file).  Returns (text, number of comments placed); at least one is placed."""
+    out = []
+    depth = 0
+    eol = "\r\n" if rng.chance(1, 8) else "\n"
+    ind = lambda: "  " * depth
+    placed = [0]
+
+    def cm():
+        placed[0] += 1
+        e = eol
+        if rng.chance(1, 16):
+            e = "\n" if eol == "\r\n" else "\r\n"
+        return gen_block_comment(rng, e)
+
+    def hit(num):
+        return rng.below(16 * num) < share * 4
+    ndecl = 0
+    for kind, x in items:
+        if kind == "t":
+            out.append(x)
+            continue
+        if x == "sp":
+            if rng.below(480) < share:
+                out.append(rng.choice([" ", "", eol + ind()]) + cm() + rng.choice([" ", "", eol + ind()]))
+            else:
+                out.append(" ")
+        elif x in ("no", "co_open", "co_close", "lit_open", "lit_close"):
+            pass
+        elif x in ("co_sep", "lit_nl", "cat"):
+            out.append(" ")
+        elif x == "nl":
+            out.append(eol + ind())
+        elif x == "in":
+            depth += 1
+            if hit(12):
+                out.append(rng.choice([" ", ""]) + cm())
+        elif x == "de":
+            if hit(8):
+                out.append(eol + rng.choice([ind(), ind(), "", ind() + "  ", "\t"]) + cm())
+            depth -= 1
+        elif x == "decl":
+            ndecl += 1
+            lead = ndecl > 1 and bool(out) and out[-1] == eol + ind()
+            if ndecl > 1 and not lead:
+                continue        # the declaration does not start a line of its own (never in this layout)
+            if not hit(3 if ndecl > 1 else 5):
+                if lead and rng.chance(1, 8):
+                    out[-1] = eol + eol + ind()
+                continue
+            k = rng.below(12)
+            at = ind() if rng.chance(3, 4) else rng.choice(["", "  ", "    ", "\t", " ", ind() + "  ", ind() + "\t"])
+            if lead:
+                out[-1] = eol + (eol if k in (6, 7) else "")
+            c = cm()
+            if k == 11:
+                out.append(at + c + rng.choice([" ", " ", ""]))                   # on the declaration's line
+            elif k in (7, 8, 9):
+                out.append(at + c + eol + eol + ind())                           # detached
+            elif k == 10:
+                out.append(at + c + eol + at + cm() + eol + ind())               # two comments in a row
+            else:
+                out.append(at + c + eol + ind())
+        elif x == "tc":
+            if hit(10):
+                out.append(rng.choice([" ", " ", "", "  ", "\t"]) + cm())
+            elif rng.chance(1, 24):
+                out.append(" // trailing %d" % rng.below(100) + rng.choice(["", " ", "\t"]))
+        elif x == "eof":
+            if hit(4) or not placed[0]:
+                out.append(eol + rng.choice(["", "", eol, "  "]) + cm() + rng.choice([eol, eol, "", eol + eol]))
+            else:
+                out.append(eol)
+    return "".join(out), placed[0]
+
+
 def gen_source(rng, stratum):
-    """stratum: plain | adversarial | flat-adversarial | shuffled-plain.  Returns (text, meta)."""
+    """stratum: plain | plain-nocomment | shuffled-plain | plain-blockcomments | flat-adversarial |
+    adversarial.  Returns (text, meta)."""
+    if stratum == "plain-blockcomments":
+        g = Gen(rng, size=rng.range(1, 3), shuffle_header=rng.chance(1, 5))
+        text, n = render_blockcomments(g.file(), rng, share=rng.range(2, 6))
+        return text, {"stratum": stratum, "comments": n}
     if stratum == "plain":
         g = Gen(rng, size=rng.range(1, 4))
         return render_plain(g.file(), rng), {"stratum": stratum}
